@@ -32,7 +32,11 @@ var identRe = regexp.MustCompile(`[A-Za-z_][A-Za-z0-9_]*`)
 // sliceAsserts selects the assertions in the cone of influence of the obligation: definitions of
 // the symbols it mentions (transitively) and assumptions about those symbols. Dropping assertions
 // can only lose proofs, never create them, so a sliced `unsat` is a valid discharge.
-func (o *Obligation) sliceAsserts(defsOnly bool) map[int]bool {
+func (o *Obligation) sliceAsserts(defsOnly bool) map[int]bool { return o.sliceFrom(defsOnly, 0) }
+
+// sliceFrom: like sliceAsserts, but assumptions made before assertion index `from` are dropped
+// (definitions are kept): the loop-local slice of an invariant-preservation obligation.
+func (o *Obligation) sliceFrom(defsOnly bool, from int) map[int]bool {
 	vc := o.vc
 	rel := map[string]bool{}
 	for _, id := range identRe.FindAllString(o.guard+" "+o.formula, -1) {
@@ -73,7 +77,25 @@ func (o *Obligation) sliceAsserts(defsOnly bool) map[int]bool {
 				}
 			}
 			if defsOnly && !isDef && !strings.Contains(a, "gh") {
-				continue // ghost/guard-level slice: definitions and ghost facts only
+				// ground slice: besides definitions and ghost facts, keep quantifier-free facts that
+				// speak only about symbols already in the cone (well-formedness of loaded values,
+				// run-time checks that passed, preserved cells)
+				if strings.Contains(a, "(forall ") || strings.Contains(a, "(exists ") {
+					continue
+				}
+				all := true
+				for _, sy := range vc.assertSyms[i] {
+					if !rel[sy] {
+						all = false
+						break
+					}
+				}
+				if !all {
+					continue
+				}
+			}
+			if !isDef && i < from {
+				continue // loop-local slice: facts assumed before the loop was cut are not needed
 			}
 			keep[i] = true
 			changed = true
@@ -241,14 +263,18 @@ func discharge(obs []*Obligation, opt solveOpts) {
 				return
 			}
 			var results []string
+			sliceStart := 0
 			trySlice := func(defsOnly bool, to int) bool {
-				keep := o.sliceAsserts(defsOnly)
+				keep := o.sliceFrom(defsOnly, sliceStart)
 				if len(keep) >= o.pos {
 					return false
 				}
 				sfile := file + ".slice.smt2"
 				os.WriteFile(sfile, []byte(o.queryWith(false, keep)), 0o644)
 				r, _, ms := runSolver(solvers[0], sfile, to)
+				if d := os.Getenv("GVC_DUMPSLICE"); d != "" && r != "unsat" {
+					os.WriteFile(filepath.Join(d, "slice_"+sanitize(o.Name)+".smt2"), []byte(o.queryWith(true, keep)), 0o644)
+				}
 				os.Remove(sfile)
 				o.Ms += ms
 				if r == "unsat" {
@@ -258,7 +284,16 @@ func discharge(obs []*Obligation, opt solveOpts) {
 				results = append(results, "slice:"+r)
 				return false
 			}
-			if !o.Cover && strings.Contains(o.formula, "gh") && o.pos > 1500 {
+			if !o.Cover && o.localFrom > 0 && o.pos > 800 {
+				// invariant preservation in a large function: the loop-local slice first
+				sliceStart = o.localFrom
+				ok := trySlice(false, 15)
+				sliceStart = 0
+				if ok {
+					return
+				}
+			}
+			if !o.Cover && (strings.Contains(o.formula, "gh") || o.Kind == "site") && o.pos > 1500 {
 				// ghost-level obligation in a large VC: definitions and ghost facts usually suffice
 				if trySlice(true, 5) {
 					return
